@@ -301,10 +301,14 @@ def run(ctx):
             mo = dec_nv(parse_sexp(m.ask(f"(1 2 {enc_str(expanded)})")))
             if mo != got:
                 ctx.disagree("parse with escape filter", repr((pre, d, post)), repr(mo), repr(got))
-        if not ends_escaped(lpre) and not (d == "" and rpost == ""):
+        if not ends_escaped(lpre) and d != "":
             # inert: same shape as with a placeholder letter, the data restored verbatim.
-            # (empty data at the very end of a cell is excluded: the trailing-separator rule
-            # then drops the final empty element, which is not a split caused by the data)
+            # (EMPTY data is excluded from this placeholder comparison: when it is the last element of
+            # a list — end of cell, or directly before the closing separator of an inner list, e.g.
+            # `;{{x|escape}}|` — the trailing-separator rule drops the final empty element, which is
+            # not a split caused by the data; a false alarm of the first version of this oracle, found
+            # under VERIF_SEED=1.  Empty data is still covered by expand-then-split above and by the
+            # theorem escape_inert, which speaks about separator positions.)
             n_inert += 1
             want = inert_expect(cp, lpre, rpost, d)
             if got != want:
